@@ -364,6 +364,11 @@ def run_case(case):
     if got_ann != exp_ann:
         viol.append(V('announcements', 'announcements:%s' % ('missing' if len(got_ann) < len(exp_ann) else ('extra' if len(got_ann) > len(exp_ann) else 'order')),
                       '%s: announced %s, transitions were %s' % (label, got_ann, exp_ann)))
+    if ex.get('receiver_errors'):
+        # a broadcast subscriber of the process (or the loop-communicator wrapper around it) raised into the communicator: no
+        # broadcast -- its own announcements, which its filter passes over, included -- is answered with an exception
+        viol.append(V('subscriber-raised', 'subscriber-raised:%s' % ex['receiver_errors'][0].split('(')[0], '%s: a broadcast subscriber raised: %s' % (label, ex['receiver_errors'][:2])))
+    obs['subscriber_error_checks'] = 1
     if a['final']['terminated'] and ex['after']:
         obs['after_termination_checks'] = 1
         if ex['after'].get('rpc') != 'unroutable':
@@ -447,7 +452,8 @@ def run_case(case):
                     status_i += 1
                     if desc != want:
                         viol.append(V('status-reply', 'status-reply', '%s: status reply %s, get_status_info gave %s' % (label, desc, want)))
-                elif not (desc and desc[0] == 'exception'):
+                elif not (desc and desc[0] == 'exception') or act['live_before']:
+                    # (a request that reached a live process is answered with its status: the direct call get_status_info() works)
                     viol.append(V('status-reply', 'status-reply:unhandled', '%s: status reply %s but no status was produced' % (label, desc)))
             continue
         if act['ret'][0] == 'raise':
